@@ -932,6 +932,13 @@ def check_soc(cfg, seed=0, max_regs=None, max_words=None):
         if ex.svd_mems is not None and ex.svd_mems.get(name.upper()) != (region.origin, region.size):
             alarm("SVD memory region %s" % name)
         count("mem_regions")
+    # regions.ld as the Builder prints it against the Lean `ldRegions` of the bus-region table (order, nothing skipped/renamed)
+    names_ld = list(soc.bus.regions)
+    ld_real = []
+    for m_ in re.finditer(r"^\t(\w+) : ORIGIN = 0x([0-9a-f]+), LENGTH = 0x([0-9a-f]+)$", ex.linker, re.M):
+        ld_real.append("%s:%d:%d" % (names_ld.index(m_.group(1)) if m_.group(1) in names_ld else m_.group(1), int(m_.group(2), 16), int(m_.group(3), 16)))
+    rec["lean"].append(("ldregions 0 ; " + " ; ".join("%d %d %d %d %d" % (i_, r_.origin, r_.size, bool(getattr(r_, "decode", True)), bool(r_.linker))
+                                                     for i_, r_ in enumerate(soc.bus.regions.values())), " ".join(ld_real) + " # 0"))
     for k, v in soc.constants.items():
         jv = ex.json["constants"].get(k.lower())
         want = v.lower() if isinstance(v, str) else v
@@ -2306,6 +2313,12 @@ def irq_case(args):
     if export.get_linker_output_format(soc.cpu) != 'OUTPUT_FORMAT("%s")\n' % stub.linker_output_format:
         alarms.append("output_format.ld: %r" % export.get_linker_output_format(soc.cpu))
     stats["linker_regions"] = len(soc.bus.regions)
+    names_ld = list(soc.bus.regions)
+    mx_real = ["%s:%d:%d" % (names_ld.index(m_.group(1)) if m_.group(1) in names_ld else m_.group(1), int(m_.group(2), 16), int(m_.group(3), 16))
+               for m_ in re.finditer(r"^\t(\w+) : ORIGIN = 0x([0-9a-f]+), LENGTH = 0x([0-9a-f]+)$", mx, re.M)]
+    extra_lines = [("ldregions %d ; " % (ra_ or 0) + " ; ".join("%d %d %d %d %d" % (i_, r_.origin, r_.size, bool(getattr(r_, "decode", True)), bool(r_.linker))
+                                                               for i_, r_ in enumerate(soc.bus.regions.values())),
+                    " ".join(mx_real) + " # %s" % (int(ms_.group(1), 16) if ms_ else "?"))]
     # the model call: b-c13's LocH run on the same requests, then the export / wiring functions of C14
     mods = [n_ for n_ in irqs if n_ not in stub.own_interrupts]
     line = "irq 32 ; O %s ; M %s ; %s ; %s" % (" ".join(str(nid(n_)) for n_ in stub.own_interrupts), " ".join(str(nid(n_)) for n_ in mods),
@@ -2321,7 +2334,8 @@ def irq_case(args):
             "cpuints": str(ex.json["constants"].get("config_cpu_interrupts")),
             "lines": " | ".join(sp([str(k_) for k_ in raised.get(n_, [])]) for n_ in names),
             "wired": {nid(n_): raised.get(n_) for n_ in names}}
-    return {"alarms": alarms, "stats": stats, "irqs": irqs, "line": line, "real": real, "input": {"kind": "irq", "seed": seed}}
+    return {"alarms": alarms, "stats": stats, "irqs": irqs, "line": line, "real": real, "extra_lines": extra_lines,
+            "input": {"kind": "irq", "seed": seed}}
 
 
 # ------------------------------------------------------------------------------------------------------------
